@@ -83,48 +83,69 @@ where
 }
 
 impl Inflection {
-    pub fn apply(self, string: &str) -> String {
+    /// Renames an enum variant the way `serde` does (`RenameRule::apply_to_variant`),
+    /// which assumes the variant is written in `PascalCase`.
+    pub fn apply_to_variant(self, variant: &str) -> String {
         match self {
-            Inflection::Lower => string.to_lowercase(),
-            Inflection::Upper => string.to_uppercase(),
-            Inflection::Camel => {
-                let pascal = Inflection::apply(Inflection::Pascal, string);
-                pascal[..1].to_ascii_lowercase() + &pascal[1..]
-            }
+            Inflection::Pascal => variant.to_owned(),
+            Inflection::Lower => variant.to_ascii_lowercase(),
+            Inflection::Upper => variant.to_ascii_uppercase(),
+            Inflection::Camel => lowercase_first(variant),
             Inflection::Snake => {
-                let mut s = String::new();
-
-                for (i, ch) in string.char_indices() {
-                    if ch.is_uppercase() && i != 0 {
-                        s.push('_');
+                let mut snake = String::new();
+                for (i, ch) in variant.char_indices() {
+                    if i > 0 && ch.is_uppercase() {
+                        snake.push('_');
                     }
-                    s.push(ch.to_ascii_lowercase());
+                    snake.push(ch.to_ascii_lowercase());
                 }
-
-                s
+                snake
             }
-            Inflection::Pascal => {
-                let mut s = String::with_capacity(string.len());
+            Inflection::ScreamingSnake => {
+                Self::Snake.apply_to_variant(variant).to_ascii_uppercase()
+            }
+            Inflection::Kebab => Self::Snake.apply_to_variant(variant).replace('_', "-"),
+            Inflection::ScreamingKebab => Self::ScreamingSnake
+                .apply_to_variant(variant)
+                .replace('_', "-"),
+        }
+    }
 
+    /// Renames a struct field the way `serde` does (`RenameRule::apply_to_field`),
+    /// which assumes the field is written in `snake_case`.
+    pub fn apply_to_field(self, field: &str) -> String {
+        match self {
+            Inflection::Lower | Inflection::Snake => field.to_owned(),
+            Inflection::Upper | Inflection::ScreamingSnake => field.to_ascii_uppercase(),
+            Inflection::Pascal => {
+                let mut pascal = String::new();
                 let mut capitalize = true;
-                for c in string.chars() {
-                    if c == '_' {
+                for ch in field.chars() {
+                    if ch == '_' {
                         capitalize = true;
-                        continue;
                     } else if capitalize {
-                        s.push(c.to_ascii_uppercase());
+                        pascal.push(ch.to_ascii_uppercase());
                         capitalize = false;
                     } else {
-                        s.push(c)
+                        pascal.push(ch);
                     }
                 }
-
-                s
+                pascal
             }
-            Inflection::ScreamingSnake => Self::Snake.apply(string).to_ascii_uppercase(),
-            Inflection::Kebab => Self::Snake.apply(string).replace('_', "-"),
-            Inflection::ScreamingKebab => Self::Kebab.apply(string).to_ascii_uppercase(),
+            Inflection::Camel => lowercase_first(&Self::Pascal.apply_to_field(field)),
+            Inflection::Kebab => field.replace('_', "-"),
+            Inflection::ScreamingKebab => Self::ScreamingSnake
+                .apply_to_field(field)
+                .replace('_', "-"),
         }
+    }
+}
+
+fn lowercase_first(s: &str) -> String {
+    let mut chars = s.chars();
+    match chars.next() {
+        Some(first) => first.to_ascii_lowercase().to_string() + chars.as_str(),
+        None => String::new(),
     }
 }
 
